@@ -400,7 +400,8 @@ pub trait Gradient2: Gradient1 {
         let indices: Vec<Option<usize>> =
             vars.iter().map(|x| self.vars().get_index_of(x)).collect();
 
-        let default_zero = Dual2::new(0., vars.clone());
+        let mut default_zero = Dual2::new(0., vars.clone());
+        default_zero.dual = Array1::zeros(default_zero.vars.len());
         let mut grad: Array1<Dual2> = Array1::zeros(vars.len());
         for (i, i_idx) in indices.iter().enumerate() {
             match i_idx {
